@@ -204,16 +204,19 @@ def install_audit():
 
 FAULT_KINDS = {
     "open": ["EACCES", "ENOSPC", "EMFILE", "CRASH"],
-    "write": ["EIO", "ENOSPC", "TORN", "CRASH"],
+    "write": ["EIO", "ENOSPC", "TORN", "SHORT", "CRASH"],
     "close": ["EIO"],
     "mkdir": ["ENOSPC", "EACCES"],
 }
 
 
+FRESH_PROCESS_HOOK = None      # set by the runner: restores the package state of a fresh interpreter
+
+
 class SimCrash(BaseException):
     """The process is killed at this point (not an Exception: ordinary handlers do not see it)."""
 _ERRNO = {"EACCES": errno.EACCES, "ENOSPC": errno.ENOSPC, "EMFILE": errno.EMFILE,
-          "EIO": errno.EIO, "TORN": errno.ENOSPC, "CRASH": 0}
+          "EIO": errno.EIO, "TORN": errno.ENOSPC, "SHORT": errno.ENOSPC, "CRASH": 0}
 
 
 def _site(ctx, kind, path):
@@ -238,7 +241,7 @@ def _site(ctx, kind, path):
         ctx.stats[f"fault.{kind}.{fk}"] += 1
         ctx.ev("fault", idx, kind, fk, rp, ctx.actor)
         if ctx.fault_sticky:
-            if fk == "ENOSPC" or fk == "TORN":
+            if fk in ("ENOSPC", "TORN", "SHORT"):
                 ctx.sticky_all = True
             elif ap:
                 ctx.sticky_paths.add(ap)
@@ -271,6 +274,17 @@ class WriteProxy:
                 mv = memoryview(data)[:n] if not isinstance(data, str) else data[:n]
                 self._f.write(mv)
                 self._f.flush()
+                _raise(fk, self._path)
+            elif fk == "SHORT":
+                # write(2) accepted only part of the buffer (the disk filled up inside it).  An unbuffered
+                # file object reports that as a short count and it is the caller's business to notice; a
+                # buffered writer retries the remainder itself and gets the error, which it raises.
+                n = len(data) // 2
+                self._f.write(memoryview(data)[:n] if not isinstance(data, str) else data[:n])
+                self._f.flush()
+                if isinstance(self._f, io.RawIOBase) and n > 0:
+                    ctx.stats["fault.short_count_returned"] += 1
+                    return n
                 _raise(fk, self._path)
             elif fk is not None:
                 _raise(fk, self._path)
